@@ -55,6 +55,36 @@ type multiArgs struct {
 	Wd       string      `json:"wd"`
 	Off      bool        `json:"off,omitempty"`
 	Model    bool        `json:"model,omitempty"` // second entry point: loader.LoadModelWithContext (the dictionary), not LoadWithContext
+	Shared   *multiShared `json:"shared,omitempty"` // round 7: ONE file reached several times in one load, along different routes
+	Twice    *multiTwice  `json:"twice,omitempty"`  // round 7: ONE file included several times in one load
+}
+
+// one file (a library of services) listed by several `include` sections of one load: the main file's, the hub's, both,
+// or twice in one list.  The definitions are identical, so the project is valid; the paths are anchored on the file's directory.
+type multiTwice struct {
+	Dir    string   `json:"dir"` // relative to the project directory
+	Attr   string   `json:"attr"`
+	S      string   `json:"s"`
+	Routes []string `json:"routes"` // main | hub, in order
+}
+
+// round 7 — the SAME file is the `extends.file` target of several services of one load, which live in files of
+// different (or the same) directories and are reached along different routes: a service of the main file, of an included
+// file, of the hub, of a file included by the hub.  Whatever the route and whoever came first, the inherited relative
+// paths are anchored on the directory of the file that declares them.  With `Chain` the shared file's service itself
+// extends a service of a second file (in `Chain`, relative to the shared file's directory) which carries the attribute.
+type multiShared struct {
+	Dir   string       `json:"dir"` // directory of the shared file, relative to the project directory
+	Attr  string       `json:"attr"`
+	S     string       `json:"s"`
+	Chain string       `json:"chain,omitempty"`
+	Users []sharedUser `json:"users"`
+}
+
+type sharedUser struct {
+	Route string `json:"route"`         // main | incl | hub | hub-incl : the file the extending service lives in
+	Dir   string `json:"dir,omitempty"` // directory of that file (incl: relative to the project directory, hub-incl: to the hub's)
+	Abs   bool   `json:"abs,omitempty"` // extends.file written absolute
 }
 
 // a registered remote loader: accepts only its own scheme, which no input uses
@@ -192,6 +222,125 @@ func buildMulti(a multiArgs) (*multiScenario, string) {
 		}
 		base := a.Wd + "/" + j(parent, u.Dir)
 		sc.obs = append(sc.obs, multiObs{c12Obs: c12Obs{Name: name, Kind: kind, S: u.S, Base: base, RelBase: j(parent, u.Dir)}, Via: u.Via, Steps: steps})
+	}
+	if sh := a.Shared; sh != nil {
+		if topLevel(sh.Attr) || sh.Attr == "label_file" {
+			return nil, "shared: not an attribute inherited through extends"
+		}
+		if sh.Attr == "volumes.short" && !shortOK(sh.S) {
+			return nil, "not a bind mount in the short syntax"
+		}
+		name := sh.Attr
+		if name == "volumes.short" {
+			name = "volumes.bind.source"
+		}
+		svc, _, kind := carrier(sh.Attr, sh.S)
+		declDir := sh.Dir // directory of the file that declares the attribute
+		var tail []map[string]any
+		if sh.Chain != "" {
+			declDir = j(sh.Dir, sh.Chain)
+			r2 := j(sh.Chain, "base2.yaml")
+			put(j(proj, sh.Dir, "base.yaml"), map[string]any{"services": map[string]any{"b": map[string]any{"extends": map[string]any{"file": r2, "service": "b2"}}}})
+			put(j(proj, declDir, "base2.yaml"), map[string]any{"services": map[string]any{"b2": svc}})
+			tail = []map[string]any{{"ext": r2}}
+		} else {
+			put(j(proj, sh.Dir, "base.yaml"), map[string]any{"services": map[string]any{"b": svc}})
+		}
+		perFile := map[string]map[string]any{} // user files (several users may live in one file)
+		for k, u := range sh.Users {
+			sname := fmt.Sprintf("svc%d", len(a.Units)+k)
+			userDir := "" // directory of the user's file, relative to the project directory
+			var steps []map[string]any
+			switch u.Route {
+			case "main":
+			case "hub":
+				userDir, needHub = a.Hub, true
+				steps = []map[string]any{{"incl": hubRef}}
+			case "incl":
+				userDir = u.Dir
+			case "hub-incl":
+				userDir, needHub = j(a.Hub, u.Dir), true
+			default:
+				return nil, "unknown route"
+			}
+			rr, err := filepath.Rel(j("/r", proj, userDir), j("/r", proj, sh.Dir, "base.yaml"))
+			if err != nil {
+				return nil, "shared: no relative reference"
+			}
+			r := rr
+			if u.Abs {
+				r = c12RootMark + "/" + j(proj, sh.Dir, "base.yaml")
+			}
+			// without resolution the value stays relative to the project directory, spelled along the route that was
+			// taken: a user outside the project directory reaches the file as ../proj/<dir> (the same directory)
+			relDecl := j(userDir, filepath.Dir(rr), sh.Chain)
+			ext := map[string]any{"extends": map[string]any{"file": r, "service": "b"}}
+			switch u.Route {
+			case "main":
+				mainSvcs[sname] = ext
+			case "hub":
+				hubSvcs[sname] = ext
+			case "incl", "hub-incl":
+				rel := j(proj, userDir, "su.yaml")
+				if perFile[rel] == nil {
+					perFile[rel] = map[string]any{}
+					ir := j(u.Dir, "su.yaml")
+					if u.Route == "incl" {
+						mainIncl = append(mainIncl, ir)
+					} else {
+						hubIncl = append(hubIncl, ir)
+					}
+				}
+				perFile[rel][sname] = ext
+				if u.Route == "incl" {
+					steps = []map[string]any{{"incl": j(u.Dir, "su.yaml")}}
+				} else {
+					steps = []map[string]any{{"incl": hubRef}, {"incl": j(u.Dir, "su.yaml")}}
+				}
+			}
+			steps = append(append(steps, map[string]any{"ext": r}), tail...)
+			sc.obs = append(sc.obs, multiObs{c12Obs: c12Obs{Name: name, Kind: kind, S: sh.S, Base: a.Wd + "/" + declDir, RelBase: relDecl},
+				Via: "shared:" + u.Route, Steps: steps})
+		}
+		for rel, svcs := range perFile {
+			put(rel, map[string]any{"services": svcs})
+		}
+	}
+	if tw := a.Twice; tw != nil {
+		if a.Off {
+			return nil, "twice: without resolution every route spells the directory its own way"
+		}
+		if tw.Attr == "label_file" || (tw.Attr == "volumes.short" && !shortOK(tw.S)) {
+			return nil, "twice: attribute not usable"
+		}
+		n := len(sc.obs)
+		svc, top, kind := carrierN(tw.Attr, tw.S, n)
+		name := tw.Attr
+		if name == "volumes.short" {
+			name = "volumes.bind.source"
+		}
+		put(j(proj, tw.Dir, "lib.yaml"), merge(map[string]any{"services": map[string]any{fmt.Sprintf("svc%d", n): svc}}, top))
+		var steps []map[string]any
+		for _, rt := range tw.Routes {
+			switch rt {
+			case "main":
+				r := j(tw.Dir, "lib.yaml")
+				mainIncl = append(mainIncl, r)
+				steps = []map[string]any{{"incl": r}}
+			case "hub":
+				r, err := filepath.Rel(j("/r", proj, a.Hub), j("/r", proj, tw.Dir, "lib.yaml"))
+				if err != nil {
+					return nil, "twice: no relative reference"
+				}
+				hubIncl, needHub = append(hubIncl, r), true
+				if steps == nil {
+					steps = []map[string]any{{"incl": hubRef}, {"incl": r}}
+				}
+			default:
+				return nil, "unknown route"
+			}
+		}
+		sc.obs = append(sc.obs, multiObs{c12Obs: c12Obs{Name: name, Kind: kind, S: tw.S, Base: a.Wd + "/" + tw.Dir, RelBase: tw.Dir}, Via: "twice", Steps: steps})
 	}
 	if needHub {
 		if seen[j(a.Hub)] {
@@ -333,6 +482,16 @@ func realMulti(raw json.RawMessage) any {
 	for i, u := range a.Units {
 		sc.obs[i].Got, sc.obs[i].Frame = c12ExtractN(tree, u.Attr, i)
 	}
+	if sh := a.Shared; sh != nil {
+		for k := range sh.Users {
+			i := len(a.Units) + k
+			sc.obs[i].Got, sc.obs[i].Frame = c12ExtractN(tree, sh.Attr, i)
+		}
+	}
+	if tw := a.Twice; tw != nil {
+		i := len(sc.obs) - 1
+		sc.obs[i].Got, sc.obs[i].Frame = c12ExtractN(tree, tw.Attr, i)
+	}
 	return map[string]any{"root": root, "home": home, "obs": sc.obs, "dirs": dirs, "wd": details.WorkingDir, "alias": scrub(alias)}
 }
 
@@ -432,7 +591,7 @@ func init() {
 				}
 				if o.Got == nil || got != *d[i].Want {
 					return core.Fail(fmt.Sprintf("multi:%s:%s:%s", mode, o.Via, o.Name),
-						fmt.Sprintf("unit %d (%s, dir %q) %s=%q (%s, resolution %s): project has %v, the property says %q", i, o.Via, a.Units[i].Dir, o.Name, o.S, shape, mode, o.Got, *d[i].Want))
+						fmt.Sprintf("unit %d (%s, dir %q) %s=%q (%s, resolution %s): project has %v, the property says %q", i, o.Via, multiDirOf(a, i), o.Name, o.S, shape, mode, o.Got, *d[i].Want))
 				}
 			}
 			// frame: the non-path attributes of every unit come out as written, whatever the neighbours are
@@ -469,7 +628,44 @@ func multiShape(a multiArgs) string {
 		}
 		l = append(l, s)
 	}
+	if sh := a.Shared; sh != nil {
+		var us []string
+		for _, u := range sh.Users {
+			s := u.Route
+			if u.Dir != "" {
+				s += ":" + u.Dir
+			}
+			if u.Abs {
+				s += "(abs)"
+			}
+			us = append(us, s)
+		}
+		s := fmt.Sprintf("; file %s/base.yaml extended by [%s]", sh.Dir, strings.Join(us, ","))
+		if sh.Chain != "" {
+			s += " and itself extending " + sh.Chain + "/base2.yaml"
+		}
+		l = append(l, s)
+	}
+	if tw := a.Twice; tw != nil {
+		l = append(l, fmt.Sprintf("; file %s/lib.yaml included from [%s]", tw.Dir, strings.Join(tw.Routes, ",")))
+	}
 	return strings.Join(l, ",")
+}
+
+func multiDirOf(a multiArgs, i int) string {
+	if i < len(a.Units) {
+		return a.Units[i].Dir
+	}
+	if sh := a.Shared; sh != nil && i-len(a.Units) < len(sh.Users) {
+		if sh.Chain != "" {
+			return filepath.Join(sh.Dir, sh.Chain)
+		}
+		return sh.Dir
+	}
+	if a.Twice != nil {
+		return a.Twice.Dir
+	}
+	return "?"
 }
 
 var c12MultiAttrs = []string{"build.context", "build.additional_contexts", "env_file.path", "develop.watch.path",
@@ -480,6 +676,17 @@ var c12MultiPatterns = [][]string{
 	{"incl", "incl"}, {"incl", "incl", "incl"}, {"ext", "ext"}, {"ext", "ext", "ext"}, {"incl", "ext"}, {"ext", "incl", "ext", "incl"},
 	{"hub-incl", "hub-incl"}, {"hub-ext", "hub-ext"}, {"hub-incl", "hub-ext", "hub-incl"}, {"incl", "hub-incl"}, {"hub-ext", "ext"},
 	{"incl", "hub-incl", "ext", "hub-ext"}, {"incl", "hub-ext", "incl"}, {"incl"}, {"ext"}, {"hub-incl"}, {"hub-ext"},
+}
+
+var c12TwiceDirs = []string{"lib", "l/ib", "../libsib"}
+var c12TwiceRoutes = [][]string{{"main", "hub"}, {"hub", "main"}, {"main", "main"}, {"hub", "hub"}, {"main", "hub", "main"}, {"main"}, {"hub"}}
+var c12SharedDirs = []string{"shared", "x/shared", "../sharedsib"}
+var c12SharedPatterns = [][]sharedUser{
+	{{Route: "main"}, {Route: "incl", Dir: "a"}}, {{Route: "incl", Dir: "b/c"}, {Route: "main"}}, {{Route: "main"}, {Route: "main"}},
+	{{Route: "incl", Dir: "a"}, {Route: "incl", Dir: "a"}}, {{Route: "incl", Dir: "a"}, {Route: "incl", Dir: "../sib"}}, {{Route: "hub"}, {Route: "main"}},
+	{{Route: "hub"}, {Route: "hub-incl", Dir: "d"}}, {{Route: "hub-incl", Dir: "d"}, {Route: "hub-incl", Dir: "e/f/g"}}, {{Route: "hub"}, {Route: "hub"}},
+	{{Route: "main"}, {Route: "incl", Dir: "a"}, {Route: "hub"}, {Route: "hub-incl", Dir: "../sib2/h"}}, {{Route: "incl", Dir: "../sib"}, {Route: "hub"}},
+	{{Route: "main"}, {Route: "hub-incl", Dir: "d"}, {Route: "main"}}, {{Route: "main"}}, {{Route: "incl", Dir: "a"}}, {{Route: "hub"}}, {{Route: "hub-incl", Dir: "d"}},
 }
 
 func runC12Multi(ctx *core.Ctx) {
@@ -509,6 +716,35 @@ func runC12Multi(ctx *core.Ctx) {
 		}
 		if a.Spare > 0 {
 			ctx.Count("multi:spare-capacity")
+		}
+		if sh := a.Shared; sh != nil {
+			dirs := map[string]bool{}
+			for _, u := range sh.Users {
+				ctx.Count("multi-shared-route:" + u.Route)
+				d := "" // directory of the user's file relative to the project directory
+				switch u.Route {
+				case "hub":
+					d = a.Hub
+				case "incl":
+					d = u.Dir
+				case "hub-incl":
+					d = filepath.Join(a.Hub, u.Dir)
+				}
+				if dirs[d] {
+					ctx.Count("multi-shared:two-users-in-one-directory")
+				}
+				dirs[d] = true
+			}
+			if len(dirs) > 1 {
+				ctx.Count("multi-shared:users-in-different-directories")
+			}
+			ctx.Count(fmt.Sprintf("multi-shared-users:%d", len(sh.Users)))
+			if sh.Chain != "" {
+				ctx.Count("multi-shared:chain")
+			}
+		}
+		if tw := a.Twice; tw != nil && !a.Off {
+			ctx.Count("multi-twice:" + strings.Join(tw.Routes, "+"))
 		}
 		if a.Model {
 			ctx.Count("multi:entry=LoadModelWithContext")
@@ -554,6 +790,37 @@ func runC12Multi(ctx *core.Ctx) {
 			}
 		}
 	}
+	// round 7: one file extended several times in one load — exhaustive over the route patterns × chain × absolute mask
+	sharedAttrs := []string{"build.context", "env_file.path", "volumes.bind.source", "develop.watch.path", "build.additional_contexts", "volumes.short"}
+	sharedVals := []string{"./x", "../x", "x/y", ".", "~/x", "/vabs", "a//b/"}
+	for pi, pat := range c12SharedPatterns {
+		for _, chain := range []string{"", "deep", "../up"} {
+			for mask := 0; mask < 1<<len(pat); mask++ {
+				k++
+				var a multiArgs
+				if k%3 == 0 {
+					a = mk(c12MultiPatterns[k%len(c12MultiPatterns)], 0)
+				} else {
+					a = multiArgs{Hub: "hub", Wd: c12WdShapes[k%len(c12WdShapes)]}
+				}
+				sh := &multiShared{Dir: c12SharedDirs[(k+pi)%len(c12SharedDirs)], Attr: sharedAttrs[k%len(sharedAttrs)], S: sharedVals[(k/2)%len(sharedVals)], Chain: chain}
+				for i, u := range pat {
+					u.Abs = mask&(1<<i) != 0
+					sh.Users = append(sh.Users, u)
+				}
+				a.Shared = sh
+				a.Remotes = k % 3
+				a.HubAbs = k%3 == 0
+				a.HubFirst = k%2 == 0
+				a.Off = k%5 == 0
+				a.Model = k%7 == 0
+				if k%2 == 0 && !a.Off {
+					a.Twice = &multiTwice{Dir: c12TwiceDirs[k%len(c12TwiceDirs)], Attr: c12MultiAttrs[k%len(c12MultiAttrs)], S: sharedVals[(k/3)%len(sharedVals)], Routes: c12TwiceRoutes[(k/2)%len(c12TwiceRoutes)]}
+				}
+				add(a, "shared")
+			}
+		}
+	}
 	for i, n := 0, ctx.Pick(500, 20000); i < n; i++ {
 		pat := c12MultiPatterns[rng.Intn(len(c12MultiPatterns))]
 		if rng.Intn(3) == 0 {
@@ -573,6 +840,24 @@ func runC12Multi(ctx *core.Ctx) {
 		a.HubAbs, a.HubFirst, a.Off = rng.Intn(3) == 0, rng.Intn(2) == 0, rng.Intn(5) == 0
 		a.Model = rng.Intn(3) == 0
 		a.Hub = []string{"hub", "h/u", "../hubsib"}[rng.Intn(3)]
+		if rng.Intn(3) == 0 {
+			sh := &multiShared{Dir: c12SharedDirs[rng.Intn(len(c12SharedDirs))], Attr: sharedAttrs[rng.Intn(len(sharedAttrs))], S: sharedVals[rng.Intn(len(sharedVals))],
+				Chain: []string{"", "", "deep", "../up"}[rng.Intn(4)]}
+			for j, m := 0, 1+rng.Intn(4); j < m; j++ {
+				u := sharedUser{Route: []string{"main", "incl", "hub", "hub-incl"}[rng.Intn(4)], Abs: rng.Intn(4) == 0}
+				if u.Route == "incl" || u.Route == "hub-incl" {
+					u.Dir = c12MultiDirs[rng.Intn(len(c12MultiDirs))]
+				}
+				sh.Users = append(sh.Users, u)
+			}
+			a.Shared = sh
+			if rng.Intn(4) == 0 {
+				a.Units = nil
+			}
+		}
+		if !a.Off && rng.Intn(3) == 0 {
+			a.Twice = &multiTwice{Dir: c12TwiceDirs[rng.Intn(len(c12TwiceDirs))], Attr: c12MultiAttrs[rng.Intn(len(c12MultiAttrs))], S: sharedVals[rng.Intn(len(sharedVals))], Routes: c12TwiceRoutes[rng.Intn(len(c12TwiceRoutes))]}
+		}
 		add(a, "random")
 	}
 }
